@@ -4,13 +4,16 @@ import stackscope
 from stackscope import lowlevel as ll
 
 class Skip(Exception): pass
+RUNNING=bool(int(__import__("os").environ.get("RUNNING","0")))
 ASYNCIFY=bool(int(__import__("os").environ.get("ASYNCIFY","0")))
 
 class Skel(ast.NodeTransformer):
     def __init__(self): self.k=0; self.nwith=0
     def nk(self): self.k+=1; return self.k
     def call(self, name, *args): return ast.Call(ast.Name(name, ast.Load()), [ast.Constant(a) for a in args], [])
-    def sus(self): return ast.Expr(ast.Await(self.call('sus', self.nk())))
+    def sus(self):
+        if RUNNING: return ast.Expr(self.call('P', self.nk()))
+        return ast.Expr(ast.Await(self.call('sus', self.nk())))
     def block(self, stmts):
         out=[]; last_simple=False
         for s in stmts:
@@ -107,6 +110,26 @@ class Run:
         r=self.rng.random()
         if r<0.12: raise E1()
         if r<0.2: raise E2()
+    def P(self, k):
+        self.steps+=1
+        if self.steps>60: raise LoopLimit()
+        self.probe(('P',k))
+        r=self.rng.random()
+        if r<0.12: raise E1()
+        if r<0.2: raise E2()
+    def probe(self, tag):
+        fr=self.frame
+        with warnings.catch_warnings(record=True) as w:
+            warnings.simplefilter('always')
+            st=stackscope.extract_since(fr)
+        got=[(c.obj,c.is_async,c.is_exiting) for c in st.frames[0].contexts]
+        exp=self.truth()
+        self.stats['obs']+=1
+        if exp: self.stats['obs_nontrivial']+=1
+        if exp and exp[-1][2]: self.stats['obs_exiting']+=1
+        if got!=exp or w or st.error:
+            self.stats['BAD']+=1
+            self.fails.append((self.label, tag, [(getattr(g[0],'k',g[0]),g[1],g[2]) for g in got], [(g[0].k,g[1],g[2]) for g in exp], [str(x.message)[:80] for x in w], st.error))
     def truth(self):
         ent=[]; exiting=None
         for ev,m in self.log:
@@ -119,22 +142,32 @@ class Run:
         class S:
             is_async=False
             def __init__(s,k): s.k=k; s.sw=run.rng.random()<0.15
-            def __enter__(s): run.log.append(('es',s)); run.log.append(('ee',s)); return s
-            def __exit__(s,*e): run.log.append(('xs',s)); run.log.append(('xe',s)); return s.sw
+            def __enter__(s):
+                run.log.append(('es',s))
+                if RUNNING: run.probe(('enter',s.k))
+                run.log.append(('ee',s)); return s
+            def __exit__(s,*e):
+                run.log.append(('xs',s))
+                try:
+                    if RUNNING: run.probe(('exit',s.k,e[0] is not None))
+                finally: run.log.append(('xe',s))
+                return s.sw
         class A:
             is_async=True
             def __init__(s,k): s.k=k; s.sw=run.rng.random()<0.15
             async def __aenter__(s):
                 run.log.append(('es',s))
-                if not run.closing: await _trap(('enter',s.k))
+                if RUNNING: run.probe(('aenter',s.k))
+                elif not run.closing: await _trap(('enter',s.k))
                 run.log.append(('ee',s)); return s
             async def __aexit__(s,*e):
                 run.log.append(('xs',s))
                 try:
-                    if not run.closing: await _trap(('exit',s.k))
+                    if RUNNING: run.probe(('aexit',s.k,e[0] is not None))
+                    elif not run.closing: await _trap(('exit',s.k))
                 finally: run.log.append(('xe',s))
                 return s.sw
-        return dict(S=S,A=A,D=self.D,R=self.R,T=self.T,V=self.V,sus=self.sus,E1=E1,E2=E2,LoopLimit=LoopLimit)
+        return dict(S=S,A=A,P=self.P,D=self.D,R=self.R,T=self.T,V=self.V,sus=self.sus,E1=E1,E2=E2,LoopLimit=LoopLimit)
 
 def check_source(src, seeds, stats, fails, label):
     try: code=compile(src,'<skel>','exec')
@@ -144,6 +177,14 @@ def check_source(src, seeds, stats, fails, label):
         run=Run(random.Random(seed)); ns=run.ns(); exec(code,ns)
         co=ns['f']()
         stats['runs']+=1
+        if RUNNING:
+            run.stats=stats; run.fails=fails; run.label=label; run.frame=co.cr_frame
+            try: co.send(None)
+            except StopIteration: stats['end_return']+=1
+            except (E1,E2): stats['end_exc']+=1
+            except LoopLimit: stats['end_limit']+=1
+            except RuntimeError: stats['end_runtimeerror']+=1
+            continue
         try:
             while True:
                 with warnings.catch_warnings(record=True) as w:
